@@ -24,9 +24,11 @@ import Blots.Lemmas.FormatFragment
                                that is a function of the tree is idempotent as soon as its
                                output parses back to the tree — the C07 claim).
 
-   * `format_idempotent_fragment` … : END TO END on the operator fragment (`Frag t`: binary
-                               operators, prefix `-` / `!`, postfix `!`, parentheses over names,
-                               `true false null`, integers < 10^15; unbounded depth), with the
+   * `format_idempotent_fragment` … : END TO END on the fragment of C10 (`Frag t`: binary
+                               operators, prefix `-` / `!`, postfix `!`, calls, index, field,
+                               lists, lambdas, conditionals, strings, records, do-blocks over
+                               names, `true false null`, integers < 10^15; the exact conditions
+                               are stated in C10; unbounded depth), with the
                                character-level PEG model of the `expression` rule and the Pratt
                                parser as `parseText` (C10): for every width
                                format ∘ parse ∘ format = format, the parsed tree does not depend
@@ -138,7 +140,7 @@ section text
 open Blots.ExprPeg Blots.FormatFrag
 
 /-- C08 ON THE FRAGMENT of C10 (`Frag`: operators, calls, index, field, list literals,
-    lambdas, conditionals), every width: the formatted text of a fragment tree is read
+    lambdas, conditionals, string literals, record literals, do-blocks), every width: the formatted text of a fragment tree is read
     back (character-level PEG recogniser + Pratt parser) to a tree whose formatted text is the
     same text. -/
 theorem format_idempotent_fragment (t : Expr) (h : Frag t) (w : Nat) :
@@ -279,6 +281,19 @@ example :
     (parseText (formatExpr x4 (some 10))).map (formatExpr · (some 80)) = some (formatExpr x4 (some 80)) ∧
     formatExpr x4 (some 80) = "{a: a + b, \"k 2\": \"v\", [c]: {}, d, ...e}" ∧
     formatExpr x4 (some 10) = "{\n  a: a + b,\n  \"k 2\": \"v\",\n  [c]: {},\n  d,\n  ...e,\n}" := by
+  decide +kernel
+/-- do-blocks -/
+private abbrev x5 : Expr :=
+  .lambda [.req "x"] (.doBlock [.mk [] (.call ig [.ident "x"]) none,
+    .mk [] (.un .negate (.bin .add (.ident "x") ib)) none] (.mk [] (.bin .mul (.ident "x") ic) none))
+example : Frag x5 := by decide +kernel
+example : (parseText (formatExpr x5 (some 10))).map (formatExpr · (some 10)) =
+    some (formatExpr x5 (some 10)) := format_parse_format x5 (by decide +kernel) 10
+example :
+    (parseText (formatExpr x5 (some 4))).map (formatExpr · (some 80)) = some (formatExpr x5 (some 80)) ∧
+    formatExpr x5 (some 80) = "x => do {\n  g(x)\n  (-(x + b))\n  return x * c\n}" ∧
+    formatExpr x5 (some 4) =
+      "x => do {\n  g(\n    x,\n  )\n  (-(x\n    + b))\n  return x\n    * c\n}" := by
   decide +kernel
 end text_examples
 
